@@ -41,6 +41,14 @@ def alloc_case(draw, allow_fixed=True, allow_empty=True, sliver=None, max_leaves
             else:
                 c = r[1] + off
                 leaves[k:k + 1] = [[r[0], r[1], r[2], c], [r[0], c, r[2], r[3]]]
+    elif draw(_i(0, 9)) == 0:
+        # almost square cells: one side longer than the other by 0.02 - 0.1 % (the longer side is still the one to halve)
+        N = draw(_i(1001, 5000))
+        d = draw(_i(1, 4))
+        W, H = (N, N + d) if draw(st.booleans()) else (N + d, N)
+        leaves = [[ox, oy, ox + W, oy + H]]
+        if draw(st.booleans()):
+            leaves.append([ox + W, oy, ox + 2 * W, oy + H])
     else:
         W, H = draw(_i(1, 10)), draw(_i(1, 10))
         leaves = draw(L.guillotine(W, H, max_leaves, ox, oy))
@@ -80,7 +88,7 @@ def alloc_case(draw, allow_fixed=True, allow_empty=True, sliver=None, max_leaves
         cells[0]["a"] = {"M0": 0.5}
         cells[0]["fixed"] = False
     form = "api" if any(c["fixed"] for c in cells) else draw(st.sampled_from(["api", "tree", "text"]))
-    return dict(unit=unit, cells=cells, form=form)
+    return dict(unit=unit, cells=cells, form=form, touched=form == "api" and draw(st.booleans()))
 
 
 def cell_rect(c, unit):
@@ -111,8 +119,30 @@ def text(case):
 
 
 def build(case):
+    try:
+        return _build(case)
+    except Exception as e:
+        from vfw.core import Violation
+        if isinstance(e, Violation):
+            raise
+        # the generated allocations are valid by construction (cells of a guillotine partition, ratios in [0, 1] per module); on the
+        # unchanged tree none is ever rejected
+        raise Violation("a valid allocation (%s form) is rejected by the constructor: %s: %s\n%s" % (
+            case["form"], type(e).__name__, str(e)[:300], text(case)[:600]), "valid-allocation-rejected")
+
+
+def _build(case):
     if case["form"] == "api":
-        a = Allocation([(cell_rect(c, case["unit"]), dict(c["a"]), c["d"]) for c in case["cells"]])
+        rects = [cell_rect(c, case["unit"]) for c in case["cells"]]
+        if case.get("touched"):
+            # the cells are Rectangle objects with a past: created elsewhere with another size, looked at, then moved and resized IN
+            # PLACE (r.center.x = ..., r.shape.w = ...) to where they belong - as the placement tools do
+            for r in rects:
+                cx, cy, w, h = r.center.x, r.center.y, r.shape.w, r.shape.h
+                r.center.x, r.center.y, r.shape.w, r.shape.h = cx + 3 * w, cy + h, 2 * w, h / 2
+                r.bounding_box, r.area, r.area_overlap(rects[0])
+                r.center.x, r.center.y, r.shape.w, r.shape.h = cx, cy, w, h
+        a = Allocation([(r, dict(c["a"]), c["d"]) for r, c in zip(rects, case["cells"])])
     elif case["form"] == "tree":
         t = tree(case)
         a = Allocation(t)
